@@ -103,3 +103,91 @@ class Round:
 
         return dict(line_events=len(log), switches=switches, switch_points=sorted(points),
                     signature=hashlib.sha1(bytes(x % 251 for x in sig)).hexdigest()[:12], inside_points=inside)
+
+
+class Preempt:
+    """Systematic single-preemption exploration (preemption bound 1 at statement granularity): thread A runs call X;
+    at its k-th LINE event inside the repository it is suspended, thread B runs the complete call Y on the same shared
+    model, then A resumes.  Sweeping k over the statement boundaries A passes through enumerates every interleaving of
+    (X, Y) with one preemption of X -- the schedules in which a per-call value parked on shared state is overwritten."""
+
+    def __init__(self, codes=None):
+        self.codes = codes if codes is not None else reach._collect_codes()
+        self.names = {id(c): c.co_qualname for c in self.codes}
+
+    def _arm(self, cb):
+        _claim()
+        mon.register_callback(TOOL, mon.events.LINE, cb)
+        for c in self.codes:
+            mon.set_local_events(TOOL, c, mon.events.LINE)
+
+    def _disarm(self):
+        for c in self.codes:
+            mon.set_local_events(TOOL, c, 0)
+        mon.register_callback(TOOL, mon.events.LINE, None)
+
+    def trace(self, fn):
+        """run fn() in the calling thread and return its LINE-event trace [(qualname, line)]"""
+        log = []
+        me = threading.get_ident()
+
+        def cb(code, line):
+            if threading.get_ident() == me:
+                log.append((self.names.get(id(code), "?"), line))
+
+        self._arm(cb)
+        try:
+            fn()
+        finally:
+            self._disarm()
+        return log
+
+    def run(self, fn_a, k, fn_b, timeout=30.0):
+        """run fn_a in thread A, suspend it at its k-th LINE event, run fn_b to completion in thread B, resume A.
+        Returns (preempted_at or None, errors)."""
+        go_b = threading.Event()
+        done_b = threading.Event()
+        state = {"n": 0, "at": None, "a": None}
+        errors = []
+
+        def cb(code, line):
+            if threading.get_ident() != state["a"]:
+                return
+            state["n"] += 1
+            if state["n"] == k and state["at"] is None:
+                state["at"] = (self.names.get(id(code), "?"), line)
+                go_b.set()
+                if not done_b.wait(timeout):
+                    errors.append("B did not finish while A was suspended")
+
+        def body_a():
+            state["a"] = threading.get_ident()
+            try:
+                fn_a()
+            except BaseException as e:  # noqa: BLE001
+                errors.append(("A", repr(e)))
+            finally:
+                go_b.set()  # A ended before reaching k: let B run anyway (no preemption in this run)
+
+        def body_b():
+            go_b.wait(timeout)
+            try:
+                fn_b()
+            except BaseException as e:  # noqa: BLE001
+                errors.append(("B", repr(e)))
+            finally:
+                done_b.set()
+
+        self._arm(cb)
+        try:
+            ta = threading.Thread(target=body_a, daemon=True)
+            tb = threading.Thread(target=body_b, daemon=True)
+            tb.start()
+            ta.start()
+            ta.join(timeout)
+            tb.join(timeout)
+            if ta.is_alive() or tb.is_alive():
+                errors.append("thread still alive")
+        finally:
+            self._disarm()
+        return state["at"], errors
